@@ -167,12 +167,25 @@ Proof.
   - rewrite A, B. apply Z.eqb_neq in A95, B95. rewrite A95, B95. reflexivity.
 Qed.
 
+Lemma digit_map x : is_digit (f x) = is_digit x.
+Proof. destruct (Hf x) as [-> | [(_ & A & _) (_ & B & _)]]; congruence. Qed.
+
+(* the CPython digit limit counts digit characters: f neither adds nor removes one *)
+Lemma filter_digit_map s : length (filter is_digit (map f s)) = length (filter is_digit s).
+Proof.
+  induction s as [|x r IH]; cbn [map filter]; [reflexivity|].
+  rewrite digit_map. destruct (is_digit x); cbn [length]; now rewrite IH.
+Qed.
+
+Lemma dig_lim_map s : dig_lim (map f s) = dig_lim s.
+Proof. unfold dig_lim, zlen. now rewrite filter_digit_map, dig_acc_map. Qed.
+
 Lemma py_int_map s : py_int (map f s) = py_int s.
 Proof.
   unfold py_int. rewrite strip_int_map. destruct (strip_int s) as [|c r]; cbn [map]; [reflexivity|].
-  pose proof (dig_acc_map 0 false (c :: r)) as Hd. cbn [map] in Hd.
+  pose proof (dig_lim_map (c :: r)) as Hd. cbn [map] in Hd.
   destruct (Hf c) as [E | [(_ & _ & A43 & A45 & _) (_ & _ & B43 & B45 & _)]].
-  - rewrite E in *. rewrite dig_acc_map, Hd. reflexivity.
+  - rewrite E in *. rewrite dig_lim_map, Hd. reflexivity.
   - apply Z.eqb_neq in A43, A45, B43, B45. rewrite A43, A45, B43, B45. exact Hd.
 Qed.
 End IntMap.
